@@ -74,6 +74,11 @@ def _requests(ttb, o, rs):
         A(f"{name}.collapse(bad-mode)", name, lambda obj=obj: obj.collapse(np.array([N])))
     # dense-only
     A("T.ttt(mismatched-dims)", "T", lambda: T.ttt(T2, np.array([0]), np.array([0])))
+    # contracted mode lists of different lengths whose sizes would broadcast against each other (singleton modes)
+    A("T.ttt(two-singleton-modes-against-one)", "T", lambda: ttb.tensor(np.ones((1, 1, 3))).ttt(ttb.tensor(np.ones((1, 4))), np.array([0, 1]), np.array([0])))
+    A("T.ttt(one-singleton-mode-against-two)", "T", lambda: ttb.tensor(np.ones((1, 4))).ttt(ttb.tensor(np.ones((1, 1, 3))), np.array([0]), np.array([0, 1])))
+    A("T.ttt(no-mode-against-a-singleton)", "T", lambda: ttb.tensor(np.ones((2, 3))).ttt(ttb.tensor(np.ones((1, 4))), None, 0))
+    A("T.ttt(sizes-differ-singleton-vs-larger)", "T", lambda: ttb.tensor(np.ones((1, 3))).ttt(ttb.tensor(np.ones((2, 4))), 0, 0))
     A("T.to_tenmat(no-dims)", "T", lambda: T.to_tenmat())
     A("T.to_tenmat(repeated-mode)", "T", lambda: T.to_tenmat(np.array([0, 0]), np.array([1, 2])))
     A("T.to_tenmat(missing-mode)", "T", lambda: T.to_tenmat(np.array([0]), np.array([1])))
